@@ -14,7 +14,7 @@ from common import Outcome, finish, lean_batch, proof_status, rng, scratch
 PROP = "C05"
 TRUSTED = [
     "Lean 4.33 kernel; axioms propext, Classical.choice, Quot.sound only",
-    "Model/OutStage.script is hand-written after cgen.createoutput/writeFileAtomically; tied by translation validation: the traced operation sequence of every real run must equal script(outdir, code model)",
+    "Model/OutStage.script is hand-written after cgen.createoutput/writeFileAtomically, Lemmas/OutStageRun.runBlocks after cgen.FileCopyUtil/copyFileAtomically; tied by translation validation: the traced operation sequence of every real run must equal prog(runBlocks(outdir, code model, recorded FileCopyUtil calls)) - the bulk data of a copied file travels by sendfile and is not traced",
     "POSIX rename atomicity; distinct path strings of one run denote distinct files",
     "harness/fsfault.py (tracer / fault injector: patches builtins.open, os.makedirs, os.replace, os.rename, os.remove, shutil.copymode)",
 ]
@@ -61,9 +61,10 @@ def run_faulted(runner, model, outdir, k, mode, flush):
     return "died" if os.WEXITSTATUS(status) == 17 else "completed"
 
 
-def crash_case(runner, r, oc, reqs, pend, max_points, big=False):
-    model = genlib.rand_model(r, ("sm", "sm", "sm", "proto", "uml"), big)
-    if model["kind"] in ("sm", "proto") and r.random() < 0.5:
+def crash_case(runner, r, oc, reqs, pend, max_points, big=False, support_copy=False):
+    model = genlib.rand_model(r, ("sm", "sm", "sm", "proto", "uml"), big) if not support_copy else (
+        genlib.rand_sm_model(r, "cpp", big) if r.random() < 0.6 else genlib.rand_proto_model(r, big))
+    if model["kind"] in ("sm", "proto") and (support_copy or r.random() < 0.5):
         model["copy_other"] = True        # kojen's default: the support sources are copied below <out>/allplatforms
         oc.stat("cases_with_support_copy")
     evolve = r.random() < 0.5
@@ -74,7 +75,7 @@ def crash_case(runner, r, oc, reqs, pend, max_points, big=False):
         # reference: complete traced run in a copy
         ref = os.path.join(base, "ref")
         shutil.copytree(real, ref)
-        with fsfault.Tracer(ref) as tr:
+        with CopyRecorder() as rec, fsfault.Tracer(ref) as tr:
             ret, fresh = runner.generate(model2, ref)
         ops = norm_ops(tr.ops)
         final = e2e.snapshot(ref)
@@ -82,8 +83,12 @@ def crash_case(runner, r, oc, reqs, pend, max_points, big=False):
         if cm_out is None:
             oc.corr_failures.append(dict(what="createoutput was not called exactly once", model=model2))
         else:
-            reqs.append(dict(cmd="script", outdir=ref, cm=[[k, v] for k, v in cm_out]))
-            pend.append(("script", dict(model=model2, existed=[os.path.join(ref, k) for k in before]), output_stage_ops(ops, ref)))
+            copies = rec.as_request()
+            reqs.append(dict(cmd="script", outdir=ref, cm=[[k, v] for k, v in cm_out], **(dict(copies=copies) if copies else {})))
+            copy_tmps = {os.path.join(c["dirTo"], f[0]) + ".kojen-tmp" for c in copies for f in c["files"]}
+            pend.append(("script", dict(model=model2, existed=[os.path.join(ref, k) for k in before], copy_tmps=sorted(copy_tmps)), traced_ops(ops)))
+            if copies:
+                oc.stat("support_files_copied", sum(len(c["files"]) for c in copies))
         n = len(ops)
         oc.stat("ops_per_run_total", n)
         if n + 1 <= max_points:
@@ -119,11 +124,52 @@ def crash_case(runner, r, oc, reqs, pend, max_points, big=False):
             oc.samples.append(dict(model=model2, evolved=evolve, operations=n, crash_points=len(points), first_ops=ops[:5]))
 
 
-def output_stage_ops(ops, outdir):
-    """the operations of createoutput: without the second fault point of an open and without the copy of the support
-    sources (everything below <outdir>/allplatforms)"""
-    sup = os.path.join(outdir, "allplatforms")
-    return [op for op in ops if op[0] != "opened" and not any(isinstance(x, str) and (x == sup or x.startswith(sup + os.sep)) for x in op[1:])]
+def traced_ops(ops):
+    """the traced operations without the second fault point of an open"""
+    return [op for op in ops if op[0] != "opened"]
+
+
+class CopyRecorder:
+    """records the calls of cgen.FileCopyUtil (dir_from, dir_to, names) of one run - the copy of the support sources"""
+
+    def __init__(self):
+        self.calls = []
+
+    def __enter__(self):
+        import sys
+        self.saved = []
+        rec = self
+
+        for name in ("kojen.cgen", "kojen.smgen", "kojen.protogen"):
+            mod = sys.modules.get(name)
+            if mod is not None and hasattr(mod, "FileCopyUtil"):
+                orig = getattr(mod, "FileCopyUtil")
+                self.saved.append((mod, orig))
+
+                def wrapped(dir_from, dir_to, names, _orig=orig):
+                    rec.calls.append((dir_from, dir_to, list(names)))
+                    return _orig(dir_from, dir_to, names)
+                setattr(mod, "FileCopyUtil", wrapped)
+        return self
+
+    def __exit__(self, *a):
+        for mod, orig in self.saved:
+            setattr(mod, "FileCopyUtil", orig)
+        return False
+
+    def as_request(self):
+        out = []
+        for dir_from, dir_to, names in self.calls:
+            files = []
+            for n in names:
+                try:
+                    with open(os.path.join(dir_from, n), "rb") as f:
+                        content = f.read().decode("latin-1")
+                except OSError:
+                    continue        # (the generator warns and goes on)
+                files.append([n, os.path.join(dir_from, n), content])
+            out.append(dict(dirTo=dir_to, files=files))
+        return out
 
 
 def settle(oc, reqs, pend):
@@ -133,7 +179,10 @@ def settle(oc, reqs, pend):
             oc.corr_failures.append(dict(what="Lean driver error: " + ans["error"], input=info))
             continue
         existed = set(info["existed"])
-        mops = [op for op in ans["ops"] if not (op[0] == "copymode" and op[1] not in existed)]
+        # copymode happens only for files that exist; the data of a support file travels by sendfile: no write is traced
+        copy_tmps = set(info.get("copy_tmps", []))
+        mops = [op for op in ans["ops"] if not (op[0] == "copymode" and op[2] not in copy_tmps and op[1] not in existed)
+                and not (op[0] == "write" and op[1] in copy_tmps)]
         oc.traces_validated += 1
         if mops != impl:
             i = next((i for i in range(min(len(mops), len(impl))) if mops[i] != impl[i]), min(len(mops), len(impl)))
@@ -146,7 +195,7 @@ def search():
     runner = genlib.Runner()
     oc = Outcome(PROP)
     for i in range(12):
-        crash_case(runner, r, oc, [], [], 120)
+        crash_case(runner, r, oc, [], [], 120, support_copy=i % 2 == 0)
         if oc.violations:
             return oc.violations[0]
     return None
@@ -160,13 +209,14 @@ def run(tier):
     oc.rule = ("fault enumeration: directory with user code, (possibly mutated) model regenerated with operation k of the traced output stage failing, "
                "k over every operation index (quick: all indices of small runs, sampled incl. first/last for large ones), as raised OSError(ENOSPC) in-process and as os._exit in a forked child "
                "(with and without flushing the buffered data first); oracle: every pre-existing file equals its old bytes or the bytes of a complete run; "
-               "translation validation: traced operation sequence == Lean script(outdir, code model); non-trivial = fault before the end in a directory with files")
+               "half of the C++ / protocol cases with kojen's default copy of the support sources on (stale copies pre-existing); a second fault point right after every open; "
+               "translation validation: traced operation sequence == Lean prog(runBlocks(outdir, code model, recorded FileCopyUtil calls)); non-trivial = fault before the end in a directory with files")
     oc.assumptions = TRUSTED
     r = rng(PROP)
     runner = genlib.Runner()
     reqs, pend = [], []
     for i in range(20 if thorough else 6):
-        crash_case(runner, r, oc, reqs, pend, 500 if thorough else 150, big=thorough)
+        crash_case(runner, r, oc, reqs, pend, 500 if thorough else 150, big=thorough, support_copy=i % 3 == 1)
         if oc.violations:
             break
     settle(oc, reqs, pend)
